@@ -604,6 +604,185 @@ def gen_tables(out):
     out.append('\n'.join(lines))
 
 
+# ------------------------------------------------------------------------------------------------ theory: clause tables and guards
+def neg_l(l):
+    return ('v', l[1], not l[2])
+
+
+class ClauseExec:
+    """symbolic executor for the straight-line clause emission (tuple assignments, unary minus, if/elif on the operator
+    string and on `lhs is not None`, backend.add_rule([], [...]), calls of make_equal / make_disjunction)"""
+
+    def __init__(self, env, consts, ftree):
+        self.env, self.consts, self.out, self.ftree = dict(env), consts, [], ftree
+
+    def lit(self, e):
+        if isinstance(e, ast.Name):
+            if e.id not in self.env or self.env[e.id] is None:
+                raise Unsupported('unbound literal ' + e.id)
+            return self.env[e.id]
+        if isinstance(e, ast.UnaryOp) and isinstance(e.op, ast.USub):
+            return neg_l(self.lit(e.operand))
+        raise Unsupported('literal ' + ast.dump(e))
+
+    def cond(self, e):
+        if isinstance(e, ast.BoolOp):
+            vs = [self.cond(v) for v in e.values]
+            return all(vs) if isinstance(e.op, ast.And) else any(vs)
+        if isinstance(e, ast.Compare) and len(e.ops) == 1:
+            l, op, r = e.left, e.ops[0], e.comparators[0]
+            if isinstance(op, (ast.Is, ast.IsNot)) and isinstance(r, ast.Constant) and r.value is None and isinstance(l, ast.Name):
+                isnone = self.env.get(l.id) is None
+                return isnone if isinstance(op, ast.Is) else not isnone
+            if isinstance(op, (ast.Eq, ast.NotEq)) and isinstance(r, ast.Constant) and isinstance(r.value, str):
+                key = ast.unparse(l)
+                if key not in self.consts:
+                    raise Unsupported('unknown constant ' + key)
+                return (self.consts[key] == r.value) == isinstance(op, ast.Eq)
+        raise Unsupported('condition ' + ast.dump(e))
+
+    def run(self, stmts):
+        for st in stmts:
+            if isinstance(st, ast.Expr) and isinstance(st.value, ast.Constant):
+                continue
+            if isinstance(st, ast.If):
+                self.run(st.body if self.cond(st.test) else st.orelse)
+                continue
+            if isinstance(st, ast.Assign) and len(st.targets) == 1:
+                t = st.targets[0]
+                if isinstance(t, ast.Tuple) and isinstance(st.value, ast.Tuple):
+                    vals = [self.lit(v) for v in st.value.elts]
+                    for n, v in zip(t.elts, vals):
+                        self.env[n.id] = v
+                    continue
+                if isinstance(t, ast.Name):
+                    self.env[t.id] = self.lit(st.value)
+                    continue
+            if isinstance(st, ast.Expr) and isinstance(st.value, ast.Call):
+                c = st.value
+                name = ast.unparse(c.func)
+                if name.endswith('backend.add_rule'):
+                    if not (isinstance(c.args[0], ast.List) and len(c.args[0].elts) == 0 and len(c.args) == 2):
+                        raise Unsupported('add_rule shape')
+                    self.out.append([self.lit(x) for x in c.args[1].elts])
+                    continue
+                if name in ('make_equal', 'make_disjunction'):
+                    f = find_fun(self.ftree, name)
+                    params = [a.arg for a in f.args.args][1:]
+                    sub = ClauseExec(dict(zip(params, [self.lit(a) for a in c.args[1:]])), {}, self.ftree)
+                    sub.run(f.body)
+                    self.out += sub.out
+                    continue
+            raise Unsupported('clause statement ' + ast.dump(st)[:160])
+
+
+def gcls(cs):
+    return '[' + '; '.join('[' + '; '.join(('P ' if l[2] else 'N ') + l[1] for l in c) + ']' for c in cs) + ']'
+
+
+def gen_theory(out):
+    F = parse('telingo/theory/formula.py')
+    B = parse('telingo/theory/body.py')
+    V = lambda n: ('v', n, True)
+    e = ClauseExec({'a': V('La'), 'b': V('Lb')}, {}, F)
+    e.run(find_fun(F, 'make_equal').body)
+    lines = ['(* ---- telingo/theory/formula.py, body.py: clause tables (each clause is the body of an integrity constraint) and guards ---- *)',
+             'Definition make_equal_cl_gen : list (list slit) := %s.' % gcls(e.out)]
+    e = ClauseExec({'e': V('Llit'), 'a': V('Llhs'), 'b': V('Lrhs')}, {}, F)
+    e.run(find_fun(F, 'make_disjunction').body)
+    lines.append('Definition make_disjunction_cl_gen : list (list slit) := %s.' % gcls(e.out))
+    tr = find_fun(B, '_translate', 'TelFormula')
+    binds = [st for st in tr.body if isinstance(st, ast.Assign) and isinstance(st.targets[0], ast.Name) and st.targets[0].id in ('lhs', 'rhs', 'lit')]
+    want = {'lhs': 'None if self._lhs is None else self._lhs.translate(ctx, step)', 'rhs': 'self._rhs.translate(ctx, step)', 'lit': 'data.add_literal(ctx.backend)'}
+    if {b.targets[0].id: ast.unparse(b.value) for b in binds} != want:
+        raise Unsupported('_translate bindings')
+    body = [st for st in tr.body if st not in binds]
+    rows = []
+    for op in ['<?', '<*', '>?', '>*']:
+        for has in (True, False):
+            e = ClauseExec({'lit': V('Llit'), 'rhs': V('Lrhs'), 'pre': V('Lpre'), 'lhs': V('Llhs') if has else None}, {'self._op': op}, F)
+            e.run(body)
+            rows.append((op, has, e.out))
+    lines.append('Definition tel_clauses_gen (op : telop) (has_lhs : bool) : list (list slit) :=\n  match op, has_lhs with\n' + '\n'.join(
+        '  | %s, %s => %s' % ({'<?': 'OpSince', '<*': 'OpTrigger', '>?': 'OpUntil', '>*': 'OpRelease'}[op], str(has).lower(), gcls(cs)) for op, has, cs in rows) + '\n  end.')
+    bt = find_fun(B, 'do_translate', 'BooleanFormula')
+    outer = [st for st in bt.body if isinstance(st, ast.If)]
+    if len(outer) != 1 or ast.unparse(outer[0].test) != 'data.literal is None' or outer[0].orelse:
+        raise Unsupported('BooleanFormula.do_translate guard')
+    inner = outer[0].body
+    binds = [st for st in inner if isinstance(st, ast.Assign) and isinstance(st.targets[0], ast.Name) and st.targets[0].id in ('lhs', 'rhs', 'lit')]
+    want = {'lhs': 'self.__lhs.translate(ctx, step)', 'rhs': 'self.__rhs.translate(ctx, step)', 'lit': 'data.add_literal(ctx.backend)'}
+    if {b.targets[0].id: ast.unparse(b.value) for b in binds} != want:
+        raise Unsupported('BooleanFormula bindings')
+    inner = [st for st in inner if st not in binds and not isinstance(st, ast.Assert)]
+    rows = []
+    for op in ['&', '|', '<-', '->', '<>']:
+        e = ClauseExec({'lit': V('Llit'), 'lhs': V('Llhs'), 'rhs': V('Lrhs')}, {'self.__operator': op}, F)
+        e.run(inner)
+        rows.append((op, e.out))
+    lines.append('Definition boolean_clauses_gen (op : boolop) : list (list slit) :=\n  match op with\n' + '\n'.join(
+        '  | %s => %s' % ({'&': 'OpAnd', '|': 'OpOr', '<-': 'OpLImp', '->': 'OpRImp', '<>': 'OpEqv'}[op], gcls(cs)) for op, cs in rows) + '\n  end.')
+    # numeric guards of Previous / Next / TelFormulaP
+    c = Ctx({'step': 'nat', 'n': 'nat', 'horizon': 'nat', 'weak': 'bool'}, subst={'self.__n': 'n', 'ctx.horizon': 'horizon', 'self.__weak': 'weak'})
+    pv = find_fun(B, 'do_translate', 'Previous')
+    ifs = [x for x in ast.walk(pv) if isinstance(x, ast.If)]
+    rng = [x for x in ifs if 'self.__arg.translate' in ast.unparse(x.body[0])]
+    flip = [x for x in ifs if ast.unparse(x.body[0]) == 'data.literal = -data.literal']
+    if len(rng) != 1 or len(flip) != 1 or ast.unparse(rng[0].body[0]) != 'data.literal = self.__arg.translate(ctx, step - self.__n)' or ast.unparse(rng[0].orelse[0]) != 'data.literal = ctx.false_literal' \
+            or flip[0] not in rng[0].orelse:
+        raise Unsupported('Previous.do_translate shape')
+    lines.append('Definition prev_inside_gen (step n : nat) : option bool := %s.' % boolx(c, rng[0].test))
+    lines.append('Definition prev_target_gen (step n : nat) : option Z := %s.' % num(c, rng[0].body[0].value.args[1]))
+    lines.append('Definition prev_boundary_true_gen (step n : nat) (weak : bool) : option bool := %s.' % boolx(c, flip[0].test))
+    nx = find_fun(B, 'do_translate', 'Next')
+    top = [st for st in nx.body if isinstance(st, ast.If)]
+    if len(top) != 1 or ast.unparse(top[0].test) != 'data.literal is None' or len(top[0].orelse) != 1 or ast.unparse(top[0].orelse[0].test) != 'not data.done':
+        raise Unsupported('Next.do_translate shape')
+    first = [st for st in top[0].body if isinstance(st, ast.If)]
+    second = [st for st in top[0].orelse[0].body if isinstance(st, ast.If)]
+    if len(first) != 1 or len(second) != 1 or ast.unparse(first[0].test) != ast.unparse(second[0].test):
+        raise Unsupported('Next.do_translate guards')
+    if ast.unparse(first[0].body[0]) != 'data.literal = self.__arg.translate(ctx, step + self.__n)' or ast.unparse(second[0].body[0]) != 'arg = self.__arg.translate(ctx, step + self.__n)':
+        raise Unsupported('Next.do_translate targets')
+    src1, src2 = [ast.unparse(x) for x in first[0].orelse], [ast.unparse(x) for x in second[0].body]
+    need1 = ['data.literal = ctx.backend.add_atom()', 'ctx.backend.add_external(data.literal, true if self.__weak else false)', 'ctx.add_todo(self, step)', 'data.done = False']
+    need2 = ['make_equal(ctx.backend, data.literal, arg)', 'ctx.backend.add_external(data.literal, _clingo.TruthValue.Free)', 'data.done = True']
+    if any(x not in src1 for x in need1) or any(x not in src2 for x in need2) or [ast.unparse(x) for x in second[0].orelse] != ['ctx.add_todo(self, step)']:
+        raise Unsupported('Next.do_translate placeholder protocol')
+    tv = [st for st in first[0].orelse if isinstance(st, ast.Assign) and ast.unparse(st.targets[0]) in ('true', 'false')]
+    tvs = {ast.unparse(st.targets[0]): ast.unparse(st.value) for st in tv}
+    if "'_True'" not in tvs.get('true', '') or "'_False'" not in tvs.get('false', ''):
+        raise Unsupported('Next.do_translate truth values')
+    lines.append('Definition next_inside_gen (step n horizon : nat) : option bool := %s.' % boolx(c, first[0].test))
+    lines.append('Definition next_target_gen (step n : nat) : option Z := %s.' % num(c, first[0].body[0].value.args[1]))
+    lines.append('Definition next_placeholder_value_gen (weak : bool) : bool := if weak then true else false.')
+    tp = find_fun(B, 'do_translate', 'TelFormulaP')
+    ifs = [x for x in ast.walk(tp) if isinstance(x, ast.If) and 'step' in ast.unparse(x.test)]
+    if len(ifs) != 1 or ast.unparse(ifs[0].body[0]) != 'data.literal = self._rhs.translate(ctx, step)' or ast.unparse(ifs[0].orelse[0]) != 'pre = self.translate(ctx, step - 1)' \
+            or ast.unparse(ifs[0].orelse[1]) != 'self._translate(ctx, step, data, pre)':
+        raise Unsupported('TelFormulaP.do_translate shape')
+    lines.append('Definition telp_base_gen (step : nat) : option bool := %s.' % boolx(c, ifs[0].test))
+    lines.append('Definition telp_pre_gen (step : nat) : option Z := %s.' % num(c, ifs[0].orelse[0].value.args[1]))
+    tn = find_fun(B, 'do_translate', 'TelFormulaN')
+    src = ast.unparse(tn)
+    if 'fut = self.__future.translate(ctx, step)' not in src or 'self._translate(ctx, step, data, fut)' not in src:
+        raise Unsupported('TelFormulaN.do_translate shape')
+    # create_formula: which future formula a binary/unary until/release gets, and the sequence operators
+    cf = ast.unparse(find_fun(B, 'create_formula'))
+    for need in ["formula = add_formula(TelFormulaN('>*', lhs, rhs))\n                formula.set_future(add_formula(Next(formula, 1, True)))",
+                 "formula = add_formula(TelFormulaN('>?', lhs, rhs))\n                formula.set_future(add_formula(Next(formula, 1, False)))"]:
+        if need not in cf:
+            raise Unsupported('create_formula until/release future: ' + need[:40])
+    lines.append('Definition release_future_weak_gen : bool := true.')
+    lines.append('Definition until_future_weak_gen : bool := false.')
+    # Negation / BooleanConstant
+    ng = ast.unparse(find_fun(B, 'do_translate', 'Negation'))
+    bc = ast.unparse(find_fun(B, 'do_translate', 'BooleanConstant'))
+    if 'data.literal = -self.__arg.translate(ctx, step)' not in ng or 'data.literal = -ctx.false_literal if self.__value else ctx.false_literal' not in bc:
+        raise Unsupported('Negation / BooleanConstant shape')
+    out.append('\n'.join(lines))
+
+
 # ------------------------------------------------------------------------------------------------ main
 # group -> (generated file under coq/Gen, fragment functions, Requires)
 GROUPS = {
@@ -611,6 +790,7 @@ GROUPS = {
     'transformers': ('FromTransformers.v', [gen_transformers], ['GenPrelude']),
     'app': ('FromApp.v', [gen_app], ['GenPrelude']),
     'tables': ('FromTables.v', [gen_tables], ['GenPrelude']),
+    'theory': ('FromTheory.v', [gen_theory], ['GenPrelude', 'TheoryPrelude']),
 }
 VERIF = os.path.dirname(os.path.dirname(os.path.abspath(__file__)))
 GEN = os.path.join(VERIF, 'coq', 'Gen')
